@@ -60,6 +60,26 @@ class FA(Feature):
         return np.array([[self.acc]])
 
 
+class PO(Feature):
+    """A parse-only user feature (no event callback, like the library's own price / spread features) that keeps
+    per-episode state between two observations: the running peak of the first contract's bid and an EMA of it."""
+
+    def __init__(self, c=None):
+        self.c = c
+        self.peak = 0.0
+        self.ema = None
+        super().__init__(space=gymnasium.spaces.Box(-np.inf, np.inf, (1, 2), float), name="PO")
+
+    def parse(self):
+        ex = getattr(self, "exchange", None)
+        if ex is not None:
+            b = float(ex[self.c].bid_price)
+            if b == b:
+                self.peak = max(self.peak, b)
+                self.ema = b if self.ema is None else 0.5 * self.ema + 0.5 * b
+        return np.array([[self.peak, self.ema if self.ema is not None else 0.0]])
+
+
 def run_generic(spec, pert_after=None, prng=None):
     grid, evspec, L, d, acts, cs, fold, markov, warm, table, Lfirst = spec[:11]
     prior = spec[11] if len(spec) > 11 else None
@@ -96,7 +116,7 @@ def run_generic(spec, pert_after=None, prng=None):
         TradingEnv(action_space=BoxPortfolio(cs, -1, 1), transmitter=tr, latency=Lfirst)
     sink = ep.Sink()
     env = TradingEnv(action_space=BoxPortfolio(cs, -1, 1), transmitter=tr,
-                     state=ep.Rec(sink, features=[FA()]),
+                     state=ep.Rec(sink, features=[FA(), PO(cs[0])]),
                      latency=L, steps_delay=d, broker_fees=BrokerFees(proportional=1e-3), initial_cash=1e5)
     sink.env = env
 
